@@ -72,6 +72,12 @@ pub trait ZnxView: ZnxInfos + DataView<D: DataRef> {
         assert!(i < self.cols(), "cols: {} >= self.cols(): {}", i, self.cols());
         assert!(j < self.size(), "size: {} >= self.size(): {}", j, self.size());
         let offset: usize = self.n() * (j * self.cols() + i);
+        // A container with zero rows (or zero output columns) holds no polynomial at all.
+        assert!(
+            offset + self.n() <= self.n() * self.poly_count(),
+            "polynomial ({i}, {j}) lies outside the {} polynomials of this container",
+            self.poly_count()
+        );
         unsafe { self.as_ptr().add(offset) }
     }
 
@@ -100,6 +106,11 @@ pub trait ZnxViewMut: ZnxView + DataViewMut<D: DataMut> {
         assert!(i < self.cols(), "cols: {} >= self.cols(): {}", i, self.cols());
         assert!(j < self.size(), "size: {} >= self.size(): {}", j, self.size());
         let offset: usize = self.n() * (j * self.cols() + i);
+        assert!(
+            offset + self.n() <= self.n() * self.poly_count(),
+            "polynomial ({i}, {j}) lies outside the {} polynomials of this container",
+            self.poly_count()
+        );
         unsafe { self.as_mut_ptr().add(offset) }
     }
 
